@@ -301,7 +301,18 @@ pub fn gen_table(rng: &mut Rng, name: &str, others: &[TableDef], profile: Profil
         let ty = if composite && rng.chance(1, 3) { ColumnType::Simple(SimpleColumnType::Uuid) } else { int_type(rng) };
         t.columns.push(col(n, ty, false));
     }
+    // loader profile: a composite inline key whose members carry DIFFERENT object-syntax flags
+    // (the flag of the whole key is the OR of the members'), on integer columns only
+    let mixed_flags = composite && profile == Profile::Loader && rng.chance(1, 3)
+        && t.columns.iter().all(|c| c.r#type.supports_auto_increment());
     match rng.below(3) {
+        0 if mixed_flags => {
+            let k = rng.below(pk_names.len());
+            for (i, n) in pk_names.iter().enumerate() {
+                let idx = t.columns.iter().position(|c| &c.name == n).unwrap();
+                t.columns[idx].primary_key = Some(PrimaryKeySyntax::Object(PrimaryKeyDef { auto_increment: i == k }));
+            }
+        }
         0 => {
             for n in &pk_names {
                 let idx = t.columns.iter().position(|c| &c.name == n).unwrap();
@@ -634,7 +645,8 @@ pub fn edit_models(rng: &mut Rng, m: &mut Vec<TableDef>, profile: Profile) -> &'
             let ci = rng.below(t.columns.len());
             let nt = gen_type(rng, profile);
             t.columns[ci].r#type = nt.clone();
-            if rng.chance(1, 2) {
+            // A4: a default must stay a valid literal for the column's type; only the loader profile keeps stale ones
+            if profile == Profile::Engine || rng.chance(1, 2) {
                 t.columns[ci].default = gen_default(rng, &nt, profile);
             }
             "retype"
